@@ -387,3 +387,24 @@ package scheduler
 //@   at call complete#1 assert the-task-of-a-vanished-worker-is-failed-by-the-scheduler: arg0 == w.currentTask && !arg3
 //@   at call add#1 assert queue-removal-is-armed-only-for-a-removable-queue-without-workers: len(scq.workers) == 0 && scq.mayBeRemoved && arg1 == &scq.cleanupKey
 //@   ensures the-worker-is-forgotten: !(workerKey in scq.workers)
+
+// ---------------------------------------------------------------------------
+// Scheduling a task (C04, C01): it is either handed to a worker that is idle and
+// waiting in Synchronize (the first one of the closest invocation that has one),
+// or, only when not even the root invocation has such a worker, every one of
+// its operations is queued. schedsteps(1): hand-overs, schedsteps(2): enqueues.
+//@ ghost map schedsteps(int) int zero
+//@ func (*task).schedule
+//@   props C04 C01
+//@   at call assignUnqueuedTaskAndWakeUp#1 assert handed-to-the-first-idle-synchronizing-worker-of-the-invocation-found:
+//@             len(i.idleSynchronizingWorkers) > 0 && arg0 == i.idleSynchronizingWorkers[0].worker && arg2 == t
+//@   at call assignUnqueuedTaskAndWakeUp#1 ghostset schedsteps[1] = schedsteps(1) + 1
+//@   loop 4 entry queued-only-when-not-even-the-root-has-a-waiting-worker:
+//@             i.parent == nil && len(i.idleSynchronizingWorkers) == 0 && len(i.idleSynchronizingWorkersChildren) == 0
+//@   at call enqueue#1 ghostset schedsteps[2] = schedsteps(2) + 1
+//@   loop 0 invariant schedsteps(1) == 0 && schedsteps(2) == 0
+//@   loop 1 invariant schedsteps(1) == 0 && schedsteps(2) == 0
+//@   loop 3 invariant schedsteps(1) == 0 && schedsteps(2) == 0
+//@   loop 2 invariant schedsteps(1) == 0 && schedsteps(2) == 0
+//@   loop 4 invariant schedsteps(1) == 0
+//@   ensures handed-to-one-worker-or-queued-never-both: (schedsteps(1) == 1 && schedsteps(2) == 0) || schedsteps(1) == 0
